@@ -278,7 +278,15 @@ func (s *BadgerStore) addParticipant(p *peers.Peer) error {
 func (s *BadgerStore) SetEvent(event *Event) error {
 	// try to add it to the cache
 	if err := s.inmemStore.SetEvent(event); err != nil {
-		return err
+		// An Event that is already in the db may be older than what the cache
+		// still indexes (the cache refuses it as "too late"). It is not new:
+		// update it in the db, from where it will be read back.
+		if !cm.IsStore(err, cm.TooLate) {
+			return err
+		}
+		if _, dbErr := s.dbGetEvent(event.Hex()); dbErr != nil {
+			return err
+		}
 	}
 
 	// Events are written to the db in maintenance mode too. While bootstrapping,
